@@ -12,10 +12,14 @@ TRows == {[a |-> a, b |-> b, c |-> c] : a \in {NullV, IntV(0), IntV(1)}, b \in {
 LRows == {[k |-> k, x |-> x] : k \in {NullV, IntV(0), IntV(1)}, x \in {StrV("p"), StrV("q")}}
 RRows == {[k |-> k, y |-> y] : k \in {NullV, IntV(0), IntV(1)}, y \in {StrV("u"), StrV("v")}}
 GRows == {[k |-> k, j |-> j, v |-> v] : k \in {NullV, IntV(0), IntV(1)}, j \in {StrV("x"), StrV("y")}, v \in {NullV, IntV(0), IntV(2), IntV(-2), IntV(-3), IntV(5)}}
-MkDB == [t |-> [cols |-> <<"a", "b", "c">>, rows |-> PickSeq(TRows, 4)],
+MkDB(i) == [t |-> [cols |-> <<"a", "b", "c">>, rows |-> PickSeq(TRows, 4)],
          l |-> [cols |-> <<"k", "x">>, rows |-> PickSeq(LRows, 3)],
          r |-> [cols |-> <<"k", "y">>, rows |-> PickSeq(RRows, 3)],
          g |-> [cols |-> <<"k", "j", "v">>, rows |-> PickSeq(GRows, 5)]]
+
+(* few groups, many repeats: counts keep changing, so rows leave and re-enter the top n of a nested ORDER BY ... LIMIT *)
+GRowsNarrow == {[k |-> k, j |-> StrV("x"), v |-> v] : k \in {NullV, IntV(0), IntV(1)}, v \in {IntV(2), IntV(-2), NullV}}
+MkDBFor(i) == IF Family = "grouplimit" THEN [MkDB(i) EXCEPT !.g.rows = PickSeq(GRowsNarrow, 9)] ELSE MkDB(i)
 
 (* ---- single-source queries over t (or over a subquery / WITH producing columns a, b, c) ---- *)
 A == Col("", "a")  B == Col("", "b")  Cc == Col("", "c")
@@ -39,7 +43,7 @@ Inner == {Sel(Base, None, Ident, FALSE, <<>>, -1),
           Sel(Base, None, Ident, FALSE, <<O(Col("", "c"), "desc"), O(Col("", "a"), "asc"), O(Col("", "b"), "asc")>>, 2),
           Sel(Base, None, <<P(Bin("+", A, IntE(1)), "a"), P(B, "b"), P(Cc, "c")>>, FALSE, <<>>, -1)}
 Froms == {Base} \cup {[k |-> "sub", q |-> i, as |-> "q"] : i \in Inner} \cup {[k |-> "with", q |-> i, as |-> "w"] : i \in Inner}
-MkSingle == LET p == Pick(Projs) IN Sel(Pick(Froms), Pick(Wheres), p, Pick(BOOLEAN), Pick(OrdersFor(p)), Pick({-1, -1, 0, 1, 2, 3}))
+MkSingle(i) == LET p == Pick(Projs) IN Sel(Pick(Froms), Pick(Wheres), p, Pick(BOOLEAN), Pick(OrdersFor(p)), Pick({-1, -1, 0, 1, 2, 3}))
 
 (* ---- joins (C02) ---- *)
 LK == Col("l", "k")  RK == Col("r", "k")
@@ -50,7 +54,7 @@ JProj == <<P(LK, "lk"), P(Col("l", "x"), "x"), P(RK, "rk"), P(Col("r", "y"), "y"
 JWheres == {None, None, Un("isnotnull", Col("l", "x")), Bin("=", Col("r", "y"), StrE("u")), Bin("or", Un("isnull", RK), Bin("=", LK, IntE(1)))}
 (* OctoSQL's outer joins accept only conjunctions of equalities between the two sides in ON *)
 OuterOns == {Bin("=", LK, RK), Bin("=", Bin("+", LK, IntE(1)), RK), Bin("=", RK, LK), Bin("and", Bin("=", LK, RK), Bin("=", Col("l", "x"), Col("r", "y")))}
-MkJoin == LET kind == Pick({"inner", "inner", "left", "right", "outer", "lookup"}) IN
+MkJoin(i) == LET kind == Pick({"inner", "inner", "left", "right", "outer", "lookup"}) IN
           Sel(JoinFrom(kind, IF kind \in {"left", "right", "outer"} THEN Pick(OuterOns) ELSE Pick(Ons)), Pick(JWheres), JProj, FALSE, <<>>, -1)
 
 (* ---- group by (C03) ---- *)
@@ -67,7 +71,7 @@ GWheres == {None, None, Un("isnotnull", GV), Bin("=", GJ, StrE("x"))}
 InnerGroup(trig) == [k |-> "group", from |-> GFrom, where |-> None, keys |-> <<P(GK, "k"), P(GJ, "j")>>,
                      aggs |-> <<Ag("max", GV, "v", FALSE, FALSE)>>, distinct |-> FALSE, order |-> <<>>, limit |-> -1, trig |-> trig]
 GFroms == {GFrom, GFrom, [k |-> "sub", q |-> InnerGroup("COUNTING 1"), as |-> "g"], [k |-> "sub", q |-> InnerGroup("COUNTING 2, ON END OF STREAM"), as |-> "g"]}
-MkGroup == LET a1 == Pick(AggSet) a2 == Pick(AggSet \ {a1}) a3 == Pick(AggSet \ {a1, a2}) IN
+MkGroup(i) == LET a1 == Pick(AggSet) a2 == Pick(AggSet \ {a1}) a3 == Pick(AggSet \ {a1, a2}) IN
            [k |-> "group", from |-> Pick(GFroms), where |-> Pick(GWheres), keys |-> Pick(KeySets), aggs |-> <<a1, a2, a3>>, distinct |-> FALSE, order |-> <<>>, limit |-> -1,
             trig |-> Pick({"", "", "COUNTING 1", "COUNTING 3"})]
 
@@ -80,24 +84,45 @@ GSub == [k |-> "sub", q |-> [k |-> "group", from |-> GFrom, where |-> None, keys
 OptProjs == {<<P(Col("q", "k"), "k"), P(Col("q", "s"), "s")>>, <<P(Col("q", "s"), "s")>>, <<P(Col("q", "m"), "m"), P(Col("q", "c"), "c")>>, <<P(Col("q", "av"), "av")>>,
              <<P(Col("q", "k"), "k")>>}
 OptWheres == {None, Bin(">", Col("q", "c"), IntE(1)), Un("isnotnull", Col("q", "m")), Bin("=", IntE(1), IntE(0))}
-MkOptGroup == Sel(GSub, Pick(OptWheres), Pick(OptProjs), Pick(BOOLEAN), <<>>, -1)
+MkOptGroup(i) == Sel(GSub, Pick(OptWheres), Pick(OptProjs), Pick(BOOLEAN), <<>>, -1)
 OptJWheres == {Bin("=", IntE(1), IntE(0)), Bin("=", IntE(1), IntE(1)), Bin("and", Bin("=", Col("l", "x"), StrE("p")), Bin("=", Col("r", "y"), StrE("u"))),
                Bin("and", Bin("=", LK, RK), Un("isnotnull", Col("l", "x"))), Bin("or", Bin("=", Col("l", "x"), StrE("p")), Bin("=", Col("r", "y"), StrE("u"))),
                Bin("and", Bin("<", LK, IntE(1)), Bin("=", IntE(2), IntE(2)))}
 OptJProjs == {JProj, <<P(Col("l", "x"), "x")>>, <<P(RK, "rk"), P(Col("l", "x"), "x")>>, <<P(Col("r", "y"), "y")>>}
 LSub == [k |-> "sub", q |-> Sel([k |-> "table", name |-> "l", as |-> "l"], Un("isnotnull", Col("", "x")), <<P(Col("", "k"), "k"), P(Col("", "x"), "x"), P(Bin("+", Col("", "k"), IntE(1)), "k1")>>, FALSE, <<>>, -1), as |-> "l"]
 OptJFrom(kind, on) == [k |-> "join", kind |-> kind, l |-> Pick({[k |-> "table", name |-> "l", as |-> "l"], LSub}), r |-> [k |-> "table", name |-> "r", as |-> "r"], on |-> on]
-MkOptJoin == LET kind == Pick({"inner", "inner", "lookup", "left"}) IN
+MkOptJoin(i) == LET kind == Pick({"inner", "inner", "lookup", "left"}) IN
              Sel(OptJFrom(kind, IF kind = "left" THEN Pick(OuterOns) ELSE Pick(Ons \cup {Bin("<", LK, RK)})), Pick(OptJWheres), Pick(OptJProjs), Pick(BOOLEAN), <<>>, -1)
-MkOptNested == LET inner == Sel(Base, Pick(Wheres), Ident, FALSE, <<>>, -1) IN
+MkOptNested(i) == LET inner == Sel(Base, Pick(Wheres), Ident, FALSE, <<>>, -1) IN
                Sel([k |-> "sub", q |-> Sel([k |-> "sub", q |-> inner, as |-> "q"], Pick(Wheres), Ident, FALSE, <<>>, -1), as |-> "z"], Pick(Wheres), Pick(Projs), FALSE, <<>>, -1)
-MkOpt == LET c == Pick(1..3) IN CASE c = 1 -> MkOptGroup [] c = 2 -> MkOptJoin [] c = 3 -> MkOptNested
+MkOpt(i) == LET c == Pick(1..3) IN CASE c = 1 -> MkOptGroup(i) [] c = 2 -> MkOptJoin(i) [] c = 3 -> MkOptNested(i)
 
-MkQuery == CASE Family = "single" -> MkSingle [] Family = "join" -> MkJoin [] Family = "group" -> MkGroup [] Family = "opt" -> MkOpt
+(* ORDER BY + LIMIT inside a subquery over a grouping with a custom trigger (a retracting source): the pruning of the ORDER BY buffer must
+   not lose rows that re-enter the top n later *)
+MkGroupLimit(i) == LET inner == [k |-> "group", from |-> GFrom, where |-> None, keys |-> <<P(GK, "k"), P(GJ, "j")>>,
+                              aggs |-> <<Ag("count", GV, "c", FALSE, TRUE), Ag("sum", GV, "s", FALSE, FALSE)>>, distinct |-> FALSE,
+                              order |-> Pick({<<O(Col("", "c"), "asc"), O(Col("", "k"), "asc"), O(Col("", "j"), "asc")>>, <<O(Col("", "s"), "desc"), O(Col("", "k"), "asc"), O(Col("", "j"), "asc")>>}),
+                              limit |-> Pick(1..3), trig |-> Pick({"COUNTING 1", "COUNTING 1", "COUNTING 2", ""})] IN
+                Sel([k |-> "sub", q |-> inner, as |-> "q"], None, <<P(Col("q", "k"), "k"), P(Col("q", "j"), "j"), P(Col("q", "c"), "c"), P(Col("q", "s"), "s")>>, FALSE, <<>>, -1)
+
+MkQuery(i) == CASE Family = "grouplimit" -> MkGroupLimit(i) [] Family = "single" -> MkSingle(i) [] Family = "join" -> MkJoin(i) [] Family = "group" -> MkGroup(i) [] Family = "opt" -> MkOpt(i)
 \* (unused) Usable(q, DB) == ~(q.k = "group" /\ q.keys = <<>> /\ (IF IsNone(q.where) THEN DB.g.rows ELSE SelectSeq(DB.g.rows, LAMBDA r : TRUE)) = <<>>)
 CaseOf(q, DB) == [sql |-> RenderQ(q), db |-> DB, groups |-> ResultGroups(q, DB), sub |-> ~LimitDetermined(q, DB),
                   n |-> Len(EvalQuery(q, DB).rel.rows), all |-> AllRows(q, DB), ordered |-> Ordered(q)]
-Cases == {LET q == MkQuery DB == MkDB IN CaseOf(q, DB) : i \in 1..N}
+(* ---- C05: LIMIT / ORDER BY in every output mode and nesting: an exhaustive family ---- *)
+L5Rows == {[a |-> IntV(0), b |-> StrV("x"), c |-> IntV(1)], [a |-> IntV(1), b |-> StrV("x"), c |-> IntV(1)], [a |-> NullV, b |-> StrV("y"), c |-> IntV(2)]}
+RECURSIVE SeqsUpTo(_, _)
+SeqsUpTo(S, n) == IF n = 0 THEN {<<>>} ELSE LET Prev == SeqsUpTo(S, n - 1) IN Prev \cup {Append(s, x) : s \in {y \in Prev : Len(y) = n - 1}, x \in S}
+L5Proj == <<P(A, "a"), P(Cc, "c")>>
+L5Orders == {<<>>, <<O(Col("", "a"), "asc")>>, <<O(Col("", "a"), "desc")>>, <<O(Col("", "c"), "desc"), O(Col("", "a"), "asc")>>}
+L5Top(ord, n) == Sel(Base, None, L5Proj, FALSE, ord, n)
+L5Sub(ord, n) == Sel([k |-> "sub", q |-> L5Top(ord, n), as |-> "q"], None, <<P(Col("q", "a"), "a"), P(Col("q", "c"), "c")>>, FALSE, <<>>, -1)
+L5Queries == {L5Top(o, n) : o \in L5Orders, n \in 0..4} \cup {L5Sub(o, n) : o \in L5Orders, n \in 0..4}
+L5DBs == {[t |-> [cols |-> <<"a", "b", "c">>, rows |-> rs]] : rs \in SeqsUpTo(L5Rows, 4)}
+L5All == {CaseOf(q, DB) : q \in L5Queries, DB \in L5DBs}
+
+Cases == IF Family = "limit" THEN (IF N = 0 THEN L5All ELSE RandomSubset(N, L5All))
+         ELSE {LET q == MkQuery(i) DB == MkDBFor(i) IN CaseOf(q, DB) : i \in 1..N}
 ASSUME ndJsonSerialize("rel_cases.ndjson", SetToSeq(Cases))
 VARIABLE x
 Init == x = 0
